@@ -504,6 +504,10 @@ func c10Forced() []*c10Scenario {
 	// the watcher IS waiting when the handler is added
 	add("empty-start-add-after-watcher-waits", []c10Op{op("run"), op("wait_running"), c10Op{K: "sleep", N: 20000}, opAdd(-1, true), opRH(2, false, false), opH("started", 0), opH("stop", 0),
 		opH("wait_stopped", 0), op("wait_run")})
+	// Running() must not close while RunHandlers is still subscribing: hold Run's RunHandlers right after it took the lock
+	add("running-not-before-subscribed", []c10Op{opAdd(0, true), opAdd(-1, true), op("run"), op("wait_running"), opH("probe", 0), opH("probe", 1), opH("stop", 0), opH("stop", 1),
+		opH("wait_stopped", 0), opH("wait_stopped", 1), op("wait_run")},
+		c10Park{Point: "router.life.rh.locked", Nth: 1, Until: "api.running_obs", Timeout: 150})
 	// publish the instant Running() closes
 	add("probe-at-running", []c10Op{opAdd(0, true), opAdd(1, true), opAdd(-1, false), op("run"), op("wait_running"), opH("probe", 0), opH("probe", 1), opH("probe", 2),
 		op("cancel"), op("close"), op("wait_run")})
